@@ -83,6 +83,15 @@ def models():
         a = SymByteArray(list(v))
         for sep in (b'\r\n', b'\r\n\r\n', b':', b',', b' '):
             same('find', s.find(sep), v.find(sep))
+            for st, en in ((-3, None), (-1, None), (2, -1), (-20, 5), (1, None)):
+                same('find-range', s.find(sep, st, en), v.find(sep, st, en))
+                # the symbolic search loop itself (fast path for concrete data switched off)
+                _c = symdata._concrete
+                symdata._concrete = lambda *_a: False
+                try:
+                    same('find-range-loop', s.find(sep, st, en), v.find(sep, st, en))
+                finally:
+                    symdata._concrete = _c
             same('split', s.split(sep), v.split(sep))
             same('partition', s.partition(sep), v.partition(sep))
             same('startswith', s.startswith(sep), v.startswith(sep))
